@@ -12,6 +12,7 @@ CONSTANTS
   TxShapes = "small"
   TreeIn <- TreeA
   Threads <- ThreadsA
+  MaxOrphans = 200
   Prog <- ProgB
 INVARIANTS ConcSafe HeadStored
 PROPERTIES ConcHeadMonotone
